@@ -868,7 +868,7 @@ MANIFEST = dict(
           'scrambling method, signal generation, merge by append, initialize_trial, unblind on a copy, evaluate) is the exact sequence of '
           'container operations of the code; none of them targets the stored containers (c07_compile_targets), hence for every history (the real MC signal generator with its write-through set_selection and the evaluation-time assignments included) '
           'data.exp and data.mc read the same afterwards (c07_frame) and share no location with any generated container '
-          '(c07_no_alias_inv); scrambling changes only the assigned fields and keeps the length; RA inside any configured range over the reals (no [0,2pi) assumption); the uniform RA is compared with lo+(hi-lo)u on the deviates numpy draws. The model is '
+          '(c07_no_alias_inv); scrambling changes only the assigned fields and keeps the length; the number of drawn MC events is n_bkg (rounded scaling with a pre-selection; executable model compared exactly); RA inside any configured range over the reals (no [0,2pi) assumption); the uniform RA is compared with lo+(hi-lo)u on the deviates numpy draws. The model is '
           'compared after every operation with a real LLHRatioAnalysis (public accessors, bit patterns, np.shares_memory); byte '
           'snapshots of data.exp/data.mc are the failing-input oracle.'),
     note=('The pre-fix unblind (adopting data.exp itself) is kept in the model as unblindAdopt with a proved counterexample. IEEE corner '
